@@ -1,9 +1,9 @@
-SPECIFICATION SimSpec
+SPECIFICATION SimSpecAdv
 CONSTANTS
   Holders = {"a1","a2"}
   Amts = {"1","2","3"}
   InitBal = "5"
-  MaxLen = 8
-  Scenarios <- MC_Coin
+  MaxLen = 10
+  Scenarios <- MC_AdvReal
   Defects = {"hook_no_checks", "unescrow_receiver_only", "wrapper_false_is_success"}
 CHECK_DEADLOCK FALSE
